@@ -300,6 +300,10 @@ func (c *caseRun) step(st step) {
 			return
 		}
 		cons := in.cons
+		if strings.HasPrefix(variant, "foreign-cons:") && strings.TrimPrefix(variant, "foreign-cons:") == typ {
+			// the step's type was resolved to the slot's current type after the variant was drawn
+			variant = "foreign-cons:" + other(typ, c.rng.Intn(3))
+		}
 		if strings.HasPrefix(variant, "foreign-cons:") {
 			cons = e.foreignCons(c.rng, strings.TrimPrefix(variant, "foreign-cons:"))
 		}
